@@ -232,6 +232,10 @@ def exchange(state: Any, inp: Any, out: Any, ctx: Any) -> None:
     if act["op"] == "emit":
         out.emit(batch_of(m["out_cols"], act["rows"]), metadata=act.get("meta") or None)
         return
+    if act["op"] == "echo_input":
+        # zero-copy pass-through: the output shares the input's buffers, possibly in another column order
+        out.emit(inp.batch.select([c["name"] for c in m["out_cols"]]))
+        return
     if act["op"] == "echo_len":
         cols = m["out_cols"]
         n = inp.batch.num_rows
